@@ -1,5 +1,6 @@
 import LyModel.Text.SpecLemmas
 import LyModel.XmlTree.Roundtrip
+import LyModel.Generated.JsonTyping
 /-!
 # C12 — printed XML and JSON mean the same to any parser: property theorems (character-data level)
 
@@ -53,5 +54,19 @@ example : XmlTree.printData
     [.inner [117, 49] [99] [] [.term [117, 49] [97] [] [60, 38, 13], .inner [117, 38, 50] [100] [] [.term [117, 49] [101] [] []]]]
     = [60, 99, 32, 120, 109, 108, 110, 115, 61, 34, 117, 49, 34, 62, 60, 97, 62, 38, 108, 116, 59, 38, 97, 109, 112, 59, 38, 35, 120, 68, 59, 60, 47, 97, 62, 60, 100, 32, 120, 109, 108, 110, 115, 61, 34, 117, 38, 97, 109, 112, 59, 50, 34, 62, 60, 101, 32, 120, 109, 108, 110, 115, 61, 34, 117, 49, 34, 47, 62, 60, 47, 100, 62, 60, 47, 99, 62] := by
   decide
+
+/-- RFC 7951 sec. 6 as a table: how an instance of each YANG base type is written in JSON -/
+def rfc7951Kind : String → String
+  | "LY_TYPE_INT8" | "LY_TYPE_INT16" | "LY_TYPE_INT32" | "LY_TYPE_UINT8" | "LY_TYPE_UINT16" | "LY_TYPE_UINT32" => "lit"   -- 6.1 number
+  | "LY_TYPE_INT64" | "LY_TYPE_UINT64" | "LY_TYPE_DEC64" => "str"                                                   -- 6.1 string
+  | "LY_TYPE_STRING" | "LY_TYPE_ENUM" | "LY_TYPE_BITS" | "LY_TYPE_BINARY" | "LY_TYPE_IDENT" | "LY_TYPE_INST" => "str"     -- 6.2-6.8, 6.11
+  | "LY_TYPE_BOOL" => "lit"                                                                                          -- 6.3 true / false
+  | "LY_TYPE_EMPTY" => "empty"                                                                                       -- 6.9 [null]
+  | "LY_TYPE_UNION" => "union"                                                                                       -- 6.10 as the member type
+  | _ => "error"                                   -- leafref is never a real type of a stored value; unknown
+
+/-- `json_print_value`: the base-type switch read off the C source by the translator IS the RFC 7951 table — 64-bit integers and
+    decimal64 as strings, the other numbers and booleans as literals, `empty` as `[null]`, a union as its member type. -/
+theorem json_typing_rfc7951 : ∀ e ∈ Generated.jsonTyping, e.2.2 = rfc7951Kind e.2.1 := by decide
 
 end LyModel.Props.C12
